@@ -23,7 +23,9 @@ EXTENDS Integers, Sequences, TLC, Json, GrolPrims
 CONSTANTS MaxOps, WriteBeforeCheck, RegisterShadows, EmitOn
 
 Kinds  == {"assign", "define", "incr", "predecr", "index-assign", "del-entry", "loop-var", "list-loop-var",
-           "param", "nested-assign", "nested-define", "func-name", "equal-reassign"}
+           "param", "nested-assign", "nested-define", "func-name", "equal-reassign",
+           "loop-from-own-value",   \* for K = K:K+3 {..}: the first loop value equals the constant (an accepted equal re-binding), the next ones do not
+           "fresh-loop-constant"}   \* for FRESH = 3 {..}: the first iteration binds a new constant, later iterations must not change it
 Scopes == {"top", "function", "loop"}
 
 VARIABLES ver,      \* version of the value K evaluates to at top level
@@ -37,7 +39,7 @@ Init == ver = 0 /\ seenIn = FALSE /\ large \in BOOLEAN /\ hist = <<>>
 Attempt(k, sc) ==
   /\ Len(hist) < MaxOps
   /\ ver' = IF k \in {"index-assign", "del-entry"} /\ large /\ WriteBeforeCheck THEN ver + 1 ELSE ver
-  /\ seenIn' = (seenIn \/ (k \in {"param", "loop-var"} /\ RegisterShadows))
+  /\ seenIn' = (seenIn \/ (k \in {"param", "loop-var", "loop-from-own-value", "fresh-loop-constant"} /\ RegisterShadows))
   /\ UNCHANGED large
   /\ hist' = Append(hist, <<k, sc>>)
 
